@@ -14,6 +14,20 @@
 #include <string>
 #include <vector>
 
+// The engine also builds with -fno-exceptions (flavour nx20: the header's GCH_EXCEPTIONS-off
+// branches; fault-free plans only). Braces are mandatory after these macros.
+#if defined (__cpp_exceptions) || defined (__EXCEPTIONS)
+#  define SVSIM_EXCEPTIONS 1
+#  define SVSIM_TRY try
+#  define SVSIM_CATCH_ALL catch (...)
+#  define SVSIM_RETHROW throw
+#else
+#  define SVSIM_EXCEPTIONS 0
+#  define SVSIM_TRY if (true)
+#  define SVSIM_CATCH_ALL else
+#  define SVSIM_RETHROW std::abort ()
+#endif
+
 namespace sim
 {
 
@@ -342,9 +356,13 @@ namespace sim
     }
     else
       g.armed = false;
+#if SVSIM_EXCEPTIONS
     if (kind == EV_ALLOC)
       throw injected_bad_alloc ();
     throw injected_fault (kind);
+#else
+    std::abort (); // no fault plan is ever armed in a build without exceptions
+#endif
   }
 
   // An event that is allowed to throw.
